@@ -1828,9 +1828,11 @@ size_t rtosc_scan_arg_val(const char* src,
             {
                 last_bufsize = *bufsize;
 
+                // args_before counts argument values (like in
+                // rtosc_scan_arg_vals()), not array elements
                 src += rtosc_scan_arg_val(src, arg, nargs,
                                           buffer_for_strings, bufsize,
-                                          prev_ok ? i : 0, 1);
+                                          prev_ok ? (size_t)num_read : 0, 1);
                 prev_ok = can_precede_range(arg);
                 arrtype = arg->type;
                 if(arrtype == '-')
